@@ -93,4 +93,70 @@ theorem cinsert_inv (s : CState) (h : CInv s) (id key wt d : Nat) (hs : id ∉ s
     exact hj
   · exact wj_remove_many hw _
 
+/-- **a removed entry, through both policies** (Invalidate, or a Compute that deletes): the table retires the node, runTask
+    delete unschedules it and replays policy.delete, the eviction pass runs, victims are unlinked from table and wheel -/
+def cremove (s : CState) (old : Nat) : CState :=
+  let p' := evictNodes (delete (retire s.p old) old)
+  let l1 := s.live.filter (fun q => q.1 != old)
+  { S := s.S, p := p',
+    w := (victims p' l1).foldl Impl.Wheel.delete (Impl.Wheel.delete s.w old),
+    live := l1.filter (fun q => !(victims p' l1).contains q.1) }
+
+theorem map_filter_ne (live : List (Nat × Nat)) (old : Nat) :
+    (live.filter (fun q => q.1 != old)).map (·.1) = (live.map (·.1)).filter (· != old) := by
+  rw [List.filter_map]; rfl
+
+theorem cremove_inv (s : CState) (h : CInv s) (old : Nat) (ho : old ∈ s.live.map (·.1)) : CInv (cremove s old) := by
+  have hj := jdelete h.pol old ho
+  have hw := Impl.Wheel.wj_remove h.whl old
+  unfold cremove
+  simp only
+  generalize evictNodes (delete (retire s.p old) old) = p' at hj ⊢
+  constructor
+  · show JInv s.S p' (((s.live.filter (fun q => q.1 != old)).filter
+        (fun q => !(victims p' (s.live.filter (fun q => q.1 != old))).contains q.1)).map (·.1))
+    rw [survivors_map p' (s.live.filter (fun q => q.1 != old)), map_filter_ne]
+    exact hj
+  · exact wj_remove_many hw _
+
+/-- **an expired entry**: the wheel handed it to the callback during DeleteExpired (it is no longer scheduled), the table retires
+    it and policy.delete is called — one node of a sweep -/
+def cexpireOne (s : CState) (old : Nat) : CState :=
+  { S := s.S, p := delete (retire s.p old) old, w := s.w, live := s.live.filter (fun q => q.1 != old) }
+
+theorem cexpireOne_inv (s : CState) (h : CInv s) (old : Nat) (ho : old ∈ s.live.map (·.1)) : CInv (cexpireOne s old) := by
+  constructor
+  · show JInv s.S (delete (retire s.p old) old) ((s.live.filter (fun q => q.1 != old)).map (·.1))
+    rw [map_filter_ne]; exact jexpire h.pol old ho
+  · show WJ s.w (s.live.filter (fun q => q.1 != old))
+    exact ⟨h.whl.reach, fun q hq => h.whl.sched q (List.mem_filter.mp hq).1,
+      List.Nodup.sublist (List.Sublist.map _ List.filter_sublist) h.whl.ids⟩
+
+/-! ### histories of the combined state -/
+
+inductive COp where
+  | insert (id key wt d : Nat) | remove (old : Nat) | expireOne (old : Nat)
+
+/-- operations whose precondition fails are not steps of the cache (relation, not a function with `if d < 2^64`: see WheelJoint) -/
+inductive CStep : CState → CState → Prop
+  | insert (s : CState) (id key wt d : Nat) : id ∉ s.S → d < Impl.Wheel.two64 → CStep s (cinsert s id key wt d)
+  | remove (s : CState) (old : Nat) : old ∈ s.live.map (·.1) → CStep s (cremove s old)
+  | expireOne (s : CState) (old : Nat) : old ∈ s.live.map (·.1) → CStep s (cexpireOne s old)
+
+inductive CRun : CState → CState → Prop
+  | done (s : CState) : CRun s s
+  | step {s s' s'' : CState} : CStep s s' → CRun s' s'' → CRun s s''
+
+theorem cstep_inv {s s' : CState} (st : CStep s s') (h : CInv s) : CInv s' := by
+  cases st with
+  | insert id key wt d hs hd => exact cinsert_inv s h id key wt d hs hd
+  | remove old ho => exact cremove_inv s h old ho
+  | expireOne old ho => exact cexpireOne_inv s h old ho
+
+/-- **both agreements after every history of insertions, removals and expirations** -/
+theorem crun_inv {s s' : CState} (r : CRun s s') (h : CInv s) : CInv s' := by
+  induction r with
+  | done s => exact h
+  | step st _ ih => exact ih (cstep_inv st h)
+
 end OtterVerif.Proofs.CacheAll
